@@ -50,6 +50,23 @@ PROPS["C13"] = dict(
     ],
 )
 
+BLS_ASSUME = ["oracle/bls381 (math/big group arithmetic + ZCash codec) is trusted; self-tested on the standard generator encodings, group laws and cofactor-torsion constructions",
+              "hash-to-curve is taken from the library as the signature of private scalar 1, decoded and subgroup-checked by the oracle; verdicts are decided from known discrete logs (no pairing in the oracle)",
+              "G2 encodings are compared through the codec calibrated on Encode(sk=1) (finding F1 is C05's subject)"]
+
+PROPS["C01"] = dict(
+    title="BLS Verify accepts exactly the one signature sk*H(m) per key, message, hasher",
+    rule=("per case: a key (decoded from a structured scalar pool / generated / aggregated), a message, a hasher (KMAC128 expand-message with generated tag or a scripted 128-byte output with halves in {0,1,p-1,p,p+1,2^384,2^512-1,random}); "
+          "the oracle computes sk·H(m) and ~25 candidate strings (exact, bit flips, negation, s+T with T of order 3/11/random cofactor torsion, s+k·G, x+p, all flag combinations, infinity variants, length 0..200, curve point outside G1, random G1 point, "
+          "signature of another message/key/tag); Verify(c) must equal (c == compress(sk·H(m))) with nil error, and be false under three kinds of identity key. "
+          "Non-trivial = the case has the accepted string and at least one rejected candidate that decodes to a curve point; distinct by draw-record hash."),
+    assumptions=BLS_ASSUME,
+    jobs=[
+        J("TestC01_Exact", 250, 2500, shards=14),
+        J("TestC01_Hasher", 150, 1000, shards=2),
+    ],
+)
+
 
 def custom_command(job, tier, n, seed, rundir, repo, verif, work):
     raise RuntimeError("no custom job kinds yet: %r" % job.get("kind"))
